@@ -82,6 +82,29 @@ def hot_catalogue(rng):
     return out
 
 
+def special_cases(rng, seed, thorough):
+    """scenarios with their own thread scripts"""
+    out = []
+    d = rng.choice([5, 10])
+    runs = 12 if thorough else 5
+    # a consumer that, on the operator's worker thread, feeds the operator's own source (feedback), then leaves
+    for opn, ps, others in [("debounce", [d], []), ("delay", [3], []), ("observe_on", [], []), ("sample", [], [["interval", d]])]:
+        pipe = ["op", opn, ps, ["hot", 0]] + others
+        threads = [["e", ["sleep", 1], ["next", 0, 1], ["sleep", 4 * d], ["next", 0, 2], ["sleep", 4 * d], ["unsub", 0]]]
+        scn = ["conc", ["objects", ["subject", "subject"], ["pipe", pipe]], ["init", ["sub", 0, 0, ["react", 0, ["next", 0, 7]]]], ["threads"] + threads, ["fini"],
+               ["sched", "random", seed * 1000 + rng.randrange(1000), runs]]
+        out.append({"scn": scn, "name": "feedback(%s)+unsub" % opn, "period": max(d, 3), "users": 1})
+    # flat_map whose thread-backed inner observables churn: A (a timer) ends while B (a ticker) runs, then C (a ticker) is opened;
+    # after the unsubscribe no ticker may go on
+    for _ in range(3 if thorough else 1):
+        pipe = ["op", "flat_map", [["mod"]], ["hot", 0], ["timer", d], ["interval", d + 1], ["interval", d + 2]]
+        threads = [["e", ["next", 0, 0], ["sleep", 1], ["next", 0, 1], ["sleep", 3 * d], ["next", 0, 2], ["sleep", 2 * d], ["unsub", 0]]]
+        scn = ["conc", ["objects", ["subject", "subject"], ["pipe", pipe]], ["init", ["sub", 0, 0]], ["threads"] + threads, ["fini"],
+               ["sched", "random", seed * 1000 + rng.randrange(1000), runs]]
+        out.append({"scn": scn, "name": "flat_map(timer,interval,interval) churn+unsub", "period": d + 2, "users": 1})
+    return out
+
+
 def generate(rng, tier, seed):
     thorough = tier == "thorough"
     cases = []
@@ -126,6 +149,7 @@ def generate(rng, tier, seed):
             scn = ["conc", ["objects", ["subject", "subject"], ["pipe", pipe]], ["init", ["sub", 0, 0]], ["threads"] + threads, ["fini"],
                    ["sched", "pct", 5, base, 1200 if thorough else 400]]      # the window is a few lock operations wide: ~2% of PCT-5 schedules land in it
             cases.append({"scn": scn, "name": nm + "+unsub@item", "period": period, "users": 1})
+    cases += special_cases(rng, seed, thorough)
     return cases
 
 
